@@ -801,7 +801,7 @@ def run_shard(shard, ctx):
                 continue
             ctx.ev(1, 1)
             check_ladder(ctx, case)
-            if len(ctx.samples) < 1:
+            if shard["shape"] == "path" and shard["n"] == 100000 and func == "find_connected":
                 ctx.sample(case)
     else:
         raise ValueError(shard)
